@@ -1,0 +1,220 @@
+//go:build verif
+
+package compile
+
+// Verification hooks for property C17 (serialization of compiled programs).
+// Compiled only with -tags verif. Add-only: nothing here is used by the
+// interpreter.
+
+import (
+	"math"
+	"math/big"
+
+	"go.starlark.net/syntax"
+)
+
+// VerifBinding is a Binding with its position spelled out.
+type VerifBinding struct {
+	Name     string
+	Filename string
+	Line     int32
+	Col      int32
+}
+
+// VerifConst is one element of Program.Constants.
+// Kind names the dynamic Go type, independently of the tags used by serial.go:
+// "string", "bytes", "int", "float", "bigint", "nilbigint", "nil" or "other".
+type VerifConst struct {
+	Kind string
+	Str  string // string / bytes contents, or decimal text of a bigint
+	Int  int64
+	Bits uint64 // math.Float64bits
+}
+
+// VerifFuncode exports every field of a Funcode except the transient
+// line-number table (lnt, lntOnce); ProgOK reports whether the Prog
+// back-pointer points at the enclosing program.
+type VerifFuncode struct {
+	Name            string
+	Pos             VerifBinding // Name is empty
+	Doc             string
+	Code            []byte
+	Pclinetab       []uint16
+	Locals          []VerifBinding
+	Cells           []int
+	FreeVars        []VerifBinding
+	MaxStack        int
+	NumParams       int
+	NumKwonlyParams int
+	HasVarargs      bool
+	HasKwargs       bool
+	ProgOK          bool
+}
+
+// VerifProgram exports every field of a Program.
+type VerifProgram struct {
+	Loads     []VerifBinding
+	Names     []string
+	Constants []VerifConst
+	Functions []*VerifFuncode
+	Globals   []VerifBinding
+	Toplevel  *VerifFuncode
+	Recursion bool
+}
+
+func verifBinding(b Binding) VerifBinding {
+	return VerifBinding{Name: b.Name, Filename: b.Pos.Filename(), Line: b.Pos.Line, Col: b.Pos.Col}
+}
+
+func verifBindings(bs []Binding) []VerifBinding {
+	res := make([]VerifBinding, len(bs))
+	for i, b := range bs {
+		res[i] = verifBinding(b)
+	}
+	return res
+}
+
+func verifFuncode(p *Program, fn *Funcode) *VerifFuncode {
+	if fn == nil {
+		return nil
+	}
+	return &VerifFuncode{
+		Name:            fn.Name,
+		Pos:             verifBinding(Binding{Pos: fn.Pos}),
+		Doc:             fn.Doc,
+		Code:            append([]byte(nil), fn.Code...),
+		Pclinetab:       append([]uint16(nil), fn.pclinetab...),
+		Locals:          verifBindings(fn.Locals),
+		Cells:           append([]int(nil), fn.Cells...),
+		FreeVars:        verifBindings(fn.FreeVars),
+		MaxStack:        fn.MaxStack,
+		NumParams:       fn.NumParams,
+		NumKwonlyParams: fn.NumKwonlyParams,
+		HasVarargs:      fn.HasVarargs,
+		HasKwargs:       fn.HasKwargs,
+		ProgOK:          fn.Prog == p,
+	}
+}
+
+// VerifDumpProgram returns a deep copy of every field of p.
+func VerifDumpProgram(p *Program) *VerifProgram {
+	d := &VerifProgram{
+		Loads:     verifBindings(p.Loads),
+		Names:     append([]string(nil), p.Names...),
+		Globals:   verifBindings(p.Globals),
+		Toplevel:  verifFuncode(p, p.Toplevel),
+		Recursion: p.Recursion,
+	}
+	d.Constants = make([]VerifConst, len(p.Constants))
+	for i, c := range p.Constants {
+		var vc VerifConst
+		switch c := c.(type) {
+		case nil:
+			vc.Kind = "nil"
+		case string:
+			vc.Kind, vc.Str = "string", c
+		case Bytes:
+			vc.Kind, vc.Str = "bytes", string(c)
+		case int64:
+			vc.Kind, vc.Int = "int", c
+		case float64:
+			vc.Kind, vc.Bits = "float", math.Float64bits(c)
+		case *big.Int:
+			if c == nil {
+				vc.Kind = "nilbigint"
+			} else {
+				vc.Kind, vc.Str = "bigint", c.Text(10)
+			}
+		default:
+			vc.Kind = "other"
+		}
+		d.Constants[i] = vc
+	}
+	d.Functions = make([]*VerifFuncode, len(p.Functions))
+	for i, fn := range p.Functions {
+		d.Functions[i] = verifFuncode(p, fn)
+	}
+	return d
+}
+
+// VerifBuildProgram is the inverse of VerifDumpProgram: it builds a Program
+// with exactly the given field values (which need not have been produced by
+// the compiler), so that the codec can be exercised on arbitrary field values.
+// All positions share filename. Constants of kind "bigint" are parsed from
+// their decimal text; an unparsable text or an unknown kind is reported by ok=false.
+func VerifBuildProgram(d *VerifProgram, filename string) (_ *Program, ok bool) {
+	file := &filename
+	bind := func(b VerifBinding) Binding {
+		return Binding{Name: b.Name, Pos: syntax.MakePosition(file, b.Line, b.Col)}
+	}
+	binds := func(bs []VerifBinding) []Binding {
+		res := make([]Binding, len(bs))
+		for i, b := range bs {
+			res[i] = bind(b)
+		}
+		return res
+	}
+	p := &Program{
+		Loads:     binds(d.Loads),
+		Names:     append([]string(nil), d.Names...),
+		Globals:   binds(d.Globals),
+		Recursion: d.Recursion,
+	}
+	p.Constants = make([]any, len(d.Constants))
+	for i, c := range d.Constants {
+		switch c.Kind {
+		case "string":
+			p.Constants[i] = c.Str
+		case "bytes":
+			p.Constants[i] = Bytes(c.Str)
+		case "int":
+			p.Constants[i] = c.Int
+		case "float":
+			p.Constants[i] = math.Float64frombits(c.Bits)
+		case "bigint":
+			z, good := new(big.Int).SetString(c.Str, 10)
+			if !good {
+				return nil, false
+			}
+			p.Constants[i] = z
+		default:
+			return nil, false
+		}
+	}
+	fun := func(f *VerifFuncode) *Funcode {
+		return &Funcode{
+			Prog:            p,
+			Pos:             syntax.MakePosition(file, f.Pos.Line, f.Pos.Col),
+			Name:            f.Name,
+			Doc:             f.Doc,
+			Code:            append([]byte(nil), f.Code...),
+			pclinetab:       append([]uint16(nil), f.Pclinetab...),
+			Locals:          binds(f.Locals),
+			Cells:           append([]int(nil), f.Cells...),
+			FreeVars:        binds(f.FreeVars),
+			MaxStack:        f.MaxStack,
+			NumParams:       f.NumParams,
+			NumKwonlyParams: f.NumKwonlyParams,
+			HasVarargs:      f.HasVarargs,
+			HasKwargs:       f.HasKwargs,
+		}
+	}
+	if d.Toplevel == nil {
+		return nil, false
+	}
+	p.Toplevel = fun(d.Toplevel)
+	p.Functions = make([]*Funcode, len(d.Functions))
+	for i, f := range d.Functions {
+		if f == nil {
+			return nil, false
+		}
+		p.Functions[i] = fun(f)
+	}
+	return p, true
+}
+
+// VerifVersion is the serialization format version.
+const VerifVersion = Version
+
+// VerifMagic is the magic number at the start of a compiled file.
+const VerifMagic = magic
